@@ -72,6 +72,11 @@ def _eval_fact(node, A):
     t = norm(node)
     if t in A:
         return A[t]
+    from engine.flow import fact_get
+
+    v = fact_get(A, t)
+    if v is not None:
+        return v
     if isinstance(node, ast.UnaryOp) and isinstance(node.op, ast.Not):
         v = _eval_fact(node.operand, A)
         return None if v is None else (not v)
